@@ -427,7 +427,7 @@ func (c *CallTree) add(from common.Address, to *common.Address, data []byte, val
 	newCall := &Call{
 		From:  from,
 		To:    to,
-		Data:  data,
+		Data:  common.CopyBytes(data), // private copy: the caller's slice may alias live EVM memory
 		Value: value,
 		Gas:   gas,
 
